@@ -63,6 +63,29 @@ def run(ctx, rep, tier):
     c19_defaults.run(ctx, rep)
     from .c07 import check_vb
     check_vb(ctx, prog, rep, False, "VB")
+    # ER: a parameter check never leaves normally before its last validation
+    rep.rule("ER", "no *Parameters::check() returns before its last throwing test or nested check() (an early exit accepts whatever the skipped tests refuse)", 3)
+    ner = 0
+    for f_ in prog.all_funcs(with_lambdas=False):
+        if f_.body is None or f_.name != "check" or not (f_.cls or "").endswith("Parameters"):
+            continue
+        ner += 1
+        ret = None
+        skipped = None
+        for x in walk(f_.body):
+            k = x.get("kind")
+            if k == "ReturnStmt" and ret is None:
+                ret = x
+            elif ret is not None and skipped is None and (k == "CXXThrowExpr" or (k == "CXXMemberCallExpr" and callee_info(x)["name"] == "check")):
+                skipped = x
+        if ret is not None and skipped is not None:
+            rep.violation("ER", ret, f_, "%s returns before later validations" % f_.short,
+                          "the tests after %s (first one at %s) are not run on that path: a parameter set they refuse is accepted there"
+                          % (loc_str(ret), loc_str(skipped)), key="%s|early return" % f_.short)
+        else:
+            rep.holds("ER", f_.decl, f_, "%s runs every validation on every normal path (no return before a later test)" % f_.short)
+    if ner == 0:
+        rep.unknown("ER", None, None, "parameter checks", "no *Parameters::check function found")
     # VP: a bound tested through a 32-bit product of two parameters wraps for large values and lets them through
     nvp = 0
     for f_ in prog.all_funcs(with_lambdas=False):
